@@ -155,7 +155,7 @@ def run_property(prop, tier, groups, required_covers=None, assumptions=None, bou
     for (pkg, files), items in wby.items():
         cases = [_fmt_case(jr, w["model"], w.get("cover", "")) for jr, w in items]
         try:
-            res = driver.native_replay(pkg, cases, files=files)
+            res = driver.native_replay(pkg, cases, files=files, race=False)  # witnesses: plain run, no race detector
         except RuntimeError as e:
             problems.append("native replay of witnesses failed: %s" % str(e)[:1500])
             continue
